@@ -154,8 +154,12 @@ def ptm5_rule(repo, rep):
             cond = n.value.args[0] if n.value.args else None
             if isinstance(cond, ast.Compare) and len(cond.ops) == 1:
                 wheres[n.targets[0].id] = (n, unparse(n.value.func.value), cond)
-    hi = [k for k, (n, o, c) in wheres.items() if isinstance(c.ops[0], ast.GtE) and unparse(c.left).endswith(".freq") and unparse(c.comparators[0]) == "fcut"]
-    lo = [k for k, (n, o, c) in wheres.items() if isinstance(c.ops[0], ast.LtE) and unparse(c.left).endswith(".freq") and unparse(c.comparators[0]) == "fcut"]
+    from ..astutil import rel as _rel
+    def _frel(c):
+        r_ = _rel(c, lambda e: unparse(e).endswith(".freq"))
+        return r_ if r_ is not None and unparse(r_[2]) == "fcut" else None
+    hi = [k for k, (n, o, c) in wheres.items() if _frel(c) and _frel(c)[1] == ">="]
+    lo = [k for k, (n, o, c) in wheres.items() if _frel(c) and _frel(c)[1] == "<="]
     if len(hi) != 1 or len(lo) != 1:
         n0 = next(iter(wheres.values()))[0] if wheres else fi.node
         rep.fail("R-C09-3", fi.file, n0.lineno, fi.qualname, "; ".join(unparse(v[2]) for v in wheres.values()),
@@ -163,7 +167,7 @@ def ptm5_rule(repo, rep):
         return
     o1, o2 = wheres[hi[0]][1], wheres[lo[0]][1]
     c1, c2 = wheres[hi[0]][2], wheres[lo[0]][2]
-    if o1 != o2 or unparse(c1.left).split(".")[0] != o1 or unparse(c2.left).split(".")[0] != o1:
+    if o1 != o2 or unparse(_frel(c1)[0]).split(".")[0] != o1 or unparse(_frel(c2)[0]).split(".")[0] != o1:
         rep.fail("R-C09-3", fi.file, wheres[hi[0]][0].lineno, fi.qualname, f"{unparse(wheres[hi[0]][0])}; {unparse(wheres[lo[0]][0])}",
                  "both partitions and both masks must come from the same (regridded) object")
     else:
@@ -173,8 +177,8 @@ def ptm5_rule(repo, rep):
     # regrid only when the cutoff is not a grid frequency
     ok = False
     for n in ast.walk(fi.node):
-        if isinstance(n, ast.If) and isinstance(n.test, ast.Compare) and isinstance(n.test.ops[0], ast.Gt) and unparse(n.test.left).startswith("len(") \
-                and ".freq.size" in unparse(n.test.comparators[0]) and any(isinstance(c, ast.Call) and call_name(c) == "regrid_spec" for c in ast.walk(n)):
+        if isinstance(n, ast.If) and isinstance(n.test, ast.Compare) and _rel(n.test, lambda e: unparse(e).startswith("len(")) is not None and _rel(n.test, lambda e: unparse(e).startswith("len("))[1] == ">" \
+                and ".freq.size" in unparse(_rel(n.test, lambda e: unparse(e).startswith("len("))[2]) and any(isinstance(c, ast.Call) and call_name(c) == "regrid_spec" for c in ast.walk(n)):
             ok = True
     if ok:
         rep.ok("R-C09-3", f"{fi.file} ptm5", "regrid_spec only when fcut adds a frequency", "on-grid cutoffs leave the input untouched")
@@ -278,7 +282,16 @@ def bbox_rule(repo, rep):
                 if isinstance(s_, ast.Assign) and len([c for c in ast.walk(s_.value) if isinstance(c, ast.Compare)]) == 4:
                     found_mask = True
                     cmps = [c for c in ast.walk(s_.value) if isinstance(c, ast.Compare)]
-                    got = sorted((unparse(c.left).split(".")[-1], type(c.ops[0]).__name__, role2.get(unparse(c.comparators[0]), unparse(c.comparators[0]))) for c in cmps)
+                    from ..astutil import rel as _rel2
+                    opname = {">=": "GtE", "<=": "LtE", ">": "Gt", "<": "Lt", "==": "Eq", "!=": "NotEq"}
+                    got = []
+                    for c in cmps:
+                        r_ = _rel2(c, lambda e: unparse(e).split(".")[-1] in ("freq", "dir") and "." in unparse(e))
+                        if r_ is None:
+                            got.append((unparse(c.left), type(c.ops[0]).__name__, unparse(c.comparators[0])))
+                        else:
+                            got.append((unparse(r_[0]).split(".")[-1], opname[r_[1]], role2.get(unparse(r_[2]), unparse(r_[2]))))
+                    got = sorted(got)
                     need = sorted([("freq", "GtE", "fmin"), ("freq", "LtE", "fmax"), ("dir", "GtE", "dmin"), ("dir", "LtE", "dmax")])
                     ors = [b_ for b_ in ast.walk(s_.value) if isinstance(b_, ast.BinOp) and isinstance(b_.op, ast.BitOr)]
                     if got != need or ors:
